@@ -192,3 +192,23 @@ Proof.
   destruct (chunk_loop _ _ _ _ _ _ _), (Model.chunk_loop _ _ _ _ _ _ _); cbn in *; try contradiction; reflexivity.
 Qed.
 Print Assumptions cost_model_runs_the_model_chunk.
+
+(* ---- tie to the source.  The cost model runs the model (`cost_model_runs_the_model_*` above: same outcome once the
+   counters are forgotten), and the model is what the functions TRANSLATED from /repo/src/lib.rs on this run compute
+   (Proofs/Src*.v), for every environment whose scanners only move forward -- so the work bounds above are bounds on
+   the cursor operations of the translated source, and a change to lib.rs that alters behaviour breaks this obligation
+   of C20 as well.  (Work that does not go through the cursor -- re-reading a slice behind it -- is outside the cost
+   model by construction; that half of the property is decided by the wall-clock scaling runs.) ---- *)
+From HV.Proofs Require Mono BackendsFwd SrcReq SrcResp SrcPH SrcChunk.
+Theorem source_tie : forall E, Mono.env_fwd E ->
+  SrcReq.request_source_is_model E /\ SrcResp.response_source_is_model E /\ SrcPH.headers_source_is_model E.
+Proof.
+  intros E HE. split; [apply SrcReq.src_tie_request; exact HE|]. split; [apply SrcResp.src_tie_response; exact HE|].
+  apply SrcPH.src_tie_headers; exact HE.
+Qed.
+Print Assumptions source_tie.
+Theorem source_tie_backends : forall W be,
+  SrcReq.request_source_is_model (Backends.env_of W be) /\ SrcResp.response_source_is_model (Backends.env_of W be) /\
+  SrcPH.headers_source_is_model (Backends.env_of W be).
+Proof. intros W be. apply source_tie, BackendsFwd.backends_fwd. Qed.
+Print Assumptions source_tie_backends.
